@@ -159,6 +159,7 @@ func runC03(c *Ctx) {
 	scannerVerdictRule(c, "R9")
 	c03PushRemote(c)
 	transferRelRule(c, "R12")
+	exactRefNameMatch(c, "R6")
 	c03TusResume(c, "R13")
 	up := p.Fn("commands", "(*uploadContext).UploadPointers")
 	prep := p.Fn("commands", "(*uploadContext).prepareUpload")
